@@ -1,5 +1,5 @@
 (* C41 — trees are encoded deterministically and without loss. Statements only. *)
-From Restic Require Import Base.Prelude Model.C41m Proofs.C41p_utf8 Proofs.C41p_esc Proofs.C41p.
+From Restic Require Import Base.Prelude Model.C41m Proofs.C41p_utf8 Proofs.C41p_esc Proofs.C41p Proofs.C41p_json.
 Import C41m.
 
 (* UTF-8 kit: a decode step that is not (RuneError,1) yields a valid rune whose canonical encoding is
@@ -63,13 +63,32 @@ Proof. exact iterator_skips_unknown. Qed.
 (* oracle *)
 Theorem C41_oracle_sound : forall c, check_C41 c = true <-> oracle_meaning c.
 Proof. exact check_C41_sound. Qed.
-Theorem C41_model_ok_build : forall l, check_C41 (CBuild l (build l)) = true.
+Theorem C41_model_ok_build : forall l, check_C41 (CBuild l (build l) (IOk (map fst l))) = true.
 Proof. exact model_ok_build. Qed.
 Theorem C41_model_ok_save : forall l, check_C41 (CSave l (save l) (save l)) = true.
 Proof. exact model_ok_save. Qed.
 Theorem C41_model_ok_time : forall ymd, check_C41 (CTime ymd (fix_time ymd) (in_years ymd)) = true.
 Proof. exact model_ok_time. Qed.
 
+(* encoding/json string layer: decoding the escaped text gives the string back for valid UTF-8, and never
+   fails on escaped text (invalid bytes come back as U+FFFD) *)
+Theorem C41_junesc_jesc : forall s, valid_utf8 s = true -> junesc (jesc s) = Some s.
+Proof. exact junesc_jesc. Qed.
+Theorem C41_junesc_jesc_total : forall s, exists out, junesc (jesc s) = Some out.
+Proof. exact junesc_jesc_total. Qed.
+(* strconv.Quote output is valid UTF-8, so the JSON layer is lossless on quoted names *)
+Theorem C41_quote_is_json_safe : forall pr s, (forall b, In b s -> (b < 256)%N) ->
+  junesc (jesc (quote pr s)) = Some (quote pr s).
+Proof. exact quote_is_json_safe. Qed.
+(* names with any bytes and link targets with any bytes survive MarshalJSON + UnmarshalJSON (no premises) *)
+Theorem C41_node_roundtrip : forall pr name target, (forall b, In b name -> (b < 256)%N) ->
+  roundtrip_node pr name target = DOk name target.
+Proof. exact node_roundtrip. Qed.
+
+Print Assumptions C41_junesc_jesc.
+Print Assumptions C41_junesc_jesc_total.
+Print Assumptions C41_quote_is_json_safe.
+Print Assumptions C41_node_roundtrip.
 Print Assumptions C41_utf8_decode_good.
 Print Assumptions C41_utf8_decode_encode.
 Print Assumptions C41_unquote_quote.
